@@ -91,6 +91,19 @@ pub fn modes_update() -> Vec<GenCfg> {
     let mut e = GenCfg::base("with-rebuilds");
     e.op_w = [22, 25, 8, 12, 6, 6, 6, 5, 10];
     v.push(e);
+    let mut h = GenCfg::base("cancel-churn-non-monotone-ts");
+    h.ts = TsMode::NonMonotone;
+    h.len = (80, 260);
+    h.max_resting = 6;
+    h.op_w = [36, 10, 30, 6, 3, 3, 6, 6, 0];
+    v.push(h);
+    let mut hb = GenCfg::base("cancel-burst-with-reads");
+    hb.ts = TsMode::NonMonotone;
+    hb.len = (160, 400);
+    hb.max_resting = 5;
+    hb.absent_pct = 3;
+    hb.op_w = [44, 2, 42, 2, 0, 0, 5, 5, 0];
+    v.push(hb);
     let mut g = GenCfg::base("non-amendable-types");
     g.kind_w = [0, 0, 0, 3, 3, 3, 3];
     g.op_w = [22, 28, 8, 18, 8, 8, 6, 2, 0];
@@ -176,6 +189,38 @@ pub fn c07() -> SeqCheck {
                 }
                 if trb.recs.len() != tr.recs.len() {
                     fds.push(fd(trb.recs.len(), "purity: the read twin's history was cut short".into()));
+                }
+                // the blind twin: no read-only call at all (not even the monitor's observations)
+                // between the operations; every result and the final state must agree with the
+                // observed run, whose only difference is that it was listed / snapshotted after
+                // every operation
+                let (blind, fin) = hseq::replay_blind(tr.price, tr.ns, &ops);
+                part.add("blind_twin_runs", 1);
+                for (i, (a, b)) in tr.recs.iter().zip(blind.iter()).enumerate() {
+                    if matches!(a.op, HOp::Read(_) | HOp::Rebuild(_)) {
+                        continue;
+                    }
+                    let (sa, sb) = (res_sig(&a.res), res_sig(b));
+                    if sa != sb {
+                        fds.push(fd(
+                            i,
+                            format!(
+                                "purity: {} returned [{}] on the level that is listed / snapshotted after every operation but [{}] on a level that received no read-only call",
+                                a.op.describe(),
+                                sa,
+                                sb
+                            ),
+                        ));
+                        break;
+                    }
+                }
+                if let Some(last) = tr.recs.last() {
+                    if blind.len() == tr.recs.len() && !obs_equal(&last.after, &fin) {
+                        fds.push(fd(
+                            tr.recs.len(),
+                            "purity: the final state differs between the level that was read after every operation and the one that was never read".into(),
+                        ));
+                    }
                 }
             }
             (fds, upd_on_touched)
@@ -505,6 +550,15 @@ pub fn modes_restore() -> Vec<GenCfg> {
     v.push(mk("ties", TsMode::Ties, [40, 30, 8, 8, 2, 2, 2, 0, 0], false, true));
     v.push(mk("non-monotone", TsMode::NonMonotone, [40, 30, 8, 8, 2, 2, 2, 0, 0], false, true));
     v.push(mk("clean-adds-only", TsMode::Increasing, [70, 0, 15, 0, 0, 0, 5, 0, 0], true, false));
+    let mut churn = mk("cancel-churn-long", TsMode::NonMonotone, [40, 8, 36, 4, 1, 1, 5, 0, 0], false, true);
+    churn.len = (100, 300);
+    churn.max_resting = 6;
+    v.push(churn);
+    let mut burst = mk("cancel-burst", TsMode::NonMonotone, [46, 1, 44, 2, 0, 0, 6, 0, 0], false, true);
+    burst.len = (160, 400);
+    burst.max_resting = 5;
+    burst.absent_pct = 3;
+    v.push(burst);
     v
 }
 
